@@ -10,6 +10,7 @@ pub mod c07;
 pub mod c08;
 pub mod c09;
 pub mod c10;
+pub mod c11;
 pub mod c17;
 
 pub fn dispatch(id: &str, opts: &mut Opts) -> i32 {
@@ -24,6 +25,7 @@ pub fn dispatch(id: &str, opts: &mut Opts) -> i32 {
         "C08" => run_prop(&c08::C08, opts),
         "C09" => run_prop(&c09::C09, opts),
         "C10" => run_prop(&c10::C10, opts),
+        "C11" => run_prop(&c11::C11, opts),
         "C13" => run_prop(&hostile::C13, opts),
         "C17" => run_prop(&c17::C17, opts),
         _ => {
